@@ -85,6 +85,8 @@ pub fn run_scenario(args: &[String]) -> String {
                 (Some(pt), Some(ms)) if POINTS.contains(&pt) => lag = Some((pt.to_string(), ms)),
                 _ => return format!("{} => bad-op", req),
             }
+        } else if a.starts_with("env=") {
+            // state of the world outside the daemon, prepared by the wrapper script (tools/c15_run.py)
         } else { return format!("{} => bad-op", req); }
     }
     let shmnew = point == "writer:shmnew";
@@ -117,7 +119,7 @@ pub fn run_scenario(args: &[String]) -> String {
         let t = Trk {
             leap: 0, ref_ns: now - 1_000_000_000,
             off: 0x0200_0000 | 0x000a_0000, disp: 0x0400_0000 | 0x00b0_0000, delay: 0x0600_0000 | 0x00c0_0000,
-            interval: (5u32 << 25) | (1 << 23), refid: 0x7f00_0001, ip4: None,
+            interval: (5u32 << 25) | (1 << 23), refid: 0x7f00_0001, ip4: None, stratum: None,
         };
         Ok(wire::reply(&t))
     }));
